@@ -442,6 +442,69 @@ def tr_ranges(tree):
   return out
 
 
+def tr_adevice(repo):
+  """ADevice.cost / deriv / hess (device_kit/adevice.py) over an abstract preference function object `f` (the property `f` is checked to
+  return what its setter stored): `s = s.reshape(len(self))`, then f(s) + (s*p).sum(), f.deriv(s) + p, f.hess(s)."""
+  def un(e):
+    return ast.unparse(e)
+  tree = ast.parse(open(os.path.join(repo, 'device_kit', 'adevice.py')).read())
+  try:
+    node = next(c for c in tree.body if isinstance(c, ast.ClassDef) and c.name == 'ADevice')
+  except StopIteration:
+    raise Unsupported('?:Module:class ADevice not found')
+  getter = setter = None
+  for n in node.body:
+    if isinstance(n, ast.FunctionDef) and n.name == 'f':
+      decs = [un(d) for d in n.decorator_list]
+      if decs == ['property']:
+        getter = n
+      elif decs == ['f.setter']:
+        setter = n
+  if getter is None or un(getter.body[-1]) != 'return self._f' or setter is None or un(setter.body[-1]) != 'self._f = %s' % setter.args.args[1].arg:
+    U(node, 'the property f is not what its setter stored')
+  meths = {n.name: n for n in node.body if isinstance(n, ast.FunctionDef) and not n.decorator_list}
+
+  def vex(e):
+    if isinstance(e, ast.Name) and e.id in ('s', 'p'):
+      return e.id, 'V'
+    if isinstance(e, ast.Call) and un(e.func) == 'self.f' and len(e.args) == 1 and not e.keywords:
+      a = vex(e.args[0])
+      if a[1] == 'V':
+        return '(f_call f %s)' % a[0], 'S'
+    if isinstance(e, ast.Call) and un(e.func) in ('self.f.deriv', 'self.f.hess') and len(e.args) == 1 and not e.keywords:
+      a = vex(e.args[0])
+      if a[1] == 'V':
+        return ('(f_deriv f %s)' % a[0], 'V') if un(e.func).endswith('deriv') else ('(f_hess f %s)' % a[0], 'M')
+    if isinstance(e, ast.Call) and isinstance(e.func, ast.Attribute) and e.func.attr == 'sum' and not e.args and not e.keywords:
+      a = vex(e.func.value)
+      if a[1] == 'V':
+        return '(vsum %s)' % a[0], 'S'
+    if isinstance(e, ast.BinOp):
+      a, b = vex(e.left), vex(e.right)
+      if isinstance(e.op, ast.Mult) and (a[1], b[1]) == ('V', 'V'):
+        return '(vmul %s %s)' % (a[0], b[0]), 'V'
+      if isinstance(e.op, ast.Add) and (a[1], b[1]) == ('S', 'S'):
+        return '(%s + %s)' % (a[0], b[0]), 'S'
+      if isinstance(e.op, ast.Add) and (a[1], b[1]) == ('V', 'V'):
+        return '(vadd %s %s)' % (a[0], b[0]), 'V'
+      if isinstance(e.op, ast.Sub) and (a[1], b[1]) == ('V', 'V'):
+        return '(vsub %s %s)' % (a[0], b[0]), 'V'
+    U(e, 'expression %s' % un(e))
+  out = {}
+  for name, rt in (('cost', 'S'), ('deriv', 'V'), ('hess', 'M')):
+    m = meths.get(name) or U(node, 'method %s' % name)
+    if [a.arg for a in m.args.args] != ['self', 's', 'p'] or [un(d) for d in m.args.defaults] != ['0']:
+      U(m, 'parameters')
+    b = [x for x in m.body if not (isinstance(x, ast.Expr) and isinstance(x.value, ast.Constant))]
+    if len(b) != 2 or un(b[0]) != 's = s.reshape(len(self))' or not isinstance(b[1], ast.Return):
+      U(m, 'body')
+    t, ty = vex(b[1].value)
+    if ty != rt:
+      U(m, 'result type %s' % ty)
+    out[name] = t
+  return out
+
+
 def gen_functions(repo):
   fname = os.path.join(repo, 'device_kit', 'functions.py')
   out = ['(* GENERATED by translator/functions_tx.py from device_kit/functions.py -- do not edit. *)',
@@ -492,6 +555,23 @@ def gen_functions(repo):
       out.append('(* functions.py: RangesFunction.%s NOT TRANSLATED (%s): alias of the hand-written model, tie falls back to the correspondence *)' % ({'call': '__call__'}.get(mn, mn), err))
       body = RF[mn][1]
     out.append('Definition RangesFunction_%s (ranges : list (nat * nat)) (functions : list (fobj A)) (x : list A) : %s :=\n  %s.\n' % (mn, RF[mn][0], body))
+  # ADevice (device_kit/adevice.py): the device whose preference is a function object
+  AD = {'cost': ('A', 'f_call f s + dot s p'), 'deriv': ('list A', 'vadd (f_deriv f s) p'), 'hess': ('list (list A)', 'f_hess f s')}
+  try:
+    ad = tr_adevice(repo)
+    err = None
+  except (Unsupported, SyntaxError, OSError) as e:
+    ad, err = {}, str(e).replace('*)', '* )')
+  for mn in ('cost', 'deriv', 'hess'):
+    if mn in ad:
+      translated.append('ADevice_%s' % mn)
+      out.append('(* adevice.py: ADevice.%s *)' % mn)
+      body = ad[mn]
+    else:
+      untranslated.append('ADevice_%s' % mn)
+      out.append('(* adevice.py: ADevice.%s NOT TRANSLATED (%s): alias of the hand-written model, tie falls back to the correspondence *)' % (mn, err))
+      body = AD[mn][1]
+    out.append('Definition ADevice_%s (f : fobj A) (s p : list A) : %s :=\n  %s.\n' % (mn, AD[mn][0], body))
   out.append('End GenFunctions.')
   out.append('From Coq Require Import String.')
   out.append('Definition functions_translated : list String.string := [%s]%%string.' % '; '.join('"%s"' % x for x in translated))
